@@ -125,6 +125,8 @@ fn bp_prefix_postfix() {
         } else {
             assert!(l_b < r_p, "prefix operator binds tighter than every binary operator except `.`");
         }
+        // `p f ( args )`: the operand of the prefix operator is the whole call chain (calls bind tightest)
+        assert!(l_call >= r_p, "call binds tighter than a prefix operator: !f(x) = !(f(x))");
         kani::cover!(lb == 8, "prefix vs field access");
         kani::cover!(lb == 6, "prefix vs multiplicative");
     }
